@@ -709,15 +709,6 @@ def near_pi_axis_region(case, message):
     d = tempfile.mkdtemp(prefix="vf_c13_")
     try:
         path = os.path.join(d, "generated.urdf")
-        if case.get("rewrite"):
-            # the path held another robot a moment ago (a calibration written back, a generator reusing its output
-            # name) and that one was loaded too: what is loaded now is what the file says now
-            with open(path, "wb") as f:
-                f.write(_PREVIOUS_URDF)
-            prev = sut(lib(), path)
-            if prev is None or sut(lambda: prev.num_dof) != 1:
-                raise Violation("the one-joint robot written first at the same path was not loaded as such")
-            ctx.label("same path loaded before with another robot in it")
         with open(path, "wb") as f:
             f.write(render(case))
         angles = FileModel(path).moving_frame_angles()
